@@ -75,6 +75,9 @@ def run(pid, tier):
     runs = [(SIDE[pid], 4 if quick else 6, "full", "ready"), ("all", 1, "full", "stub")]
     if not quick:
         runs.append(("all", 2, "full", "ready"))
+    elif pid == "C02":
+        # both mutual-close entry points (phase 2 and the raw-transaction one) need both sides of the channel
+        runs.append(("all", 1, "full", "ready"))
     tot_states = tot_edges = 0
     samples = []
     if pid in ("C01", "C02"):
